@@ -320,7 +320,7 @@ def jobs(tier, seed):
         pairs = [(a, b) for fam in (O.BOOL_TYPES, O.SPIN_TYPES) for a in fam for b in fam if a != b]
     for tn in O.DEG2_TYPES + (['PUSO', 'PUBO'] if tier != 'quick' else []):
         add('binop/%s/same/quadprod' % tn, 'make_binop', dict(tn=tn, bk='same', nlab=3, shape='quadprod',
-                                                                 ops=['a*b', 'b*a', 'a*=b', 'a**2', 'a*a', 'a*=a', 'a**3']), 300 if tier == 'quick' else 1800)
+                                                                 ops=['a*b', 'b*a', 'a*=b', 'a**2', 'a*a', 'a*=a'] + ([] if tier == 'quick' else ['a**3'])), 300 if tier == 'quick' else 1800)
     for tn in (['PUBO', 'PUSO', 'QUBO', 'QUSOMatrix', 'PCBO'] if tier == 'quick' else allT):
         add('binop/%s/same/small/highpow' % tn, 'make_binop', dict(tn=tn, bk='same', shape='small', ops=['a**4', 'a**5', 'a**6', 'a**=6']), 300 if tier == 'quick' else 1800)
     for a, b in pairs:
